@@ -1055,6 +1055,9 @@ static void verif_trace_state( const char * p_event, int fd )
    PROXY_QUEUE * p_buf;
    int n = 0;
 
+   if (proxy.should_exit)
+      return;  /* shutting down: the client list is being freed */
+
    n += snprintf(buf + n, sizeof(buf) - n, "\"e\":\"%s\",\"c\":%d,\"clients\":[", p_event, fd);
    for (req = proxy.p_clnts; (req != NULL) && (n < 1200); req = req->p_next)
       n += snprintf(buf + n, sizeof(buf) - n, "%s[%d,%d,%d,%d,%u,%d]", (req == proxy.p_clnts) ? "" : ",",
